@@ -40,12 +40,12 @@ N_MECH = 2
 def grids(n_outputs, max_len):
     """all order types: tuples of sorted time tuples whose union is {0..k-1}"""
     pool = range(n_outputs * max_len)
-    singles = []
+    singles = [()] if n_outputs > 1 else []          # an output without any measurement (the other outputs have some)
     for ln in range(1, max_len + 1):
         singles += list(itertools.combinations_with_replacement(pool, ln))
     for combo in itertools.product(singles, repeat=n_outputs):
         used = sorted(set(t for g in combo for t in g))
-        if used != list(range(len(used))):
+        if not used or used != list(range(len(used))):
             continue
         yield combo
 
